@@ -34,6 +34,7 @@ def units(tier):
     from contracts.message_leaf import coefficient_count_lemma
     us.append(ground_unit("igs.coefficient_counts", coefficient_count_lemma))
     us.append(ground_unit("tables.field_entries", tablecheck.field_entry_lemmas))
+    us.append(ground_unit("tables.identity_set", tablecheck.identity_set_lemmas))
     # "every defined identity can be decoded": the MSM maps are built for every mask (no mask makes a defined MSM type fail)
     us += func_units(M + "._getsatcellmaps", tier)
     from spec import msm as _msm
